@@ -73,6 +73,9 @@ func (s *logRun) fail(op, class, what string, extra map[string]interface{}) {
 		d[k] = v
 	}
 	s.res.violation(fmt.Sprintf("C15:%s:%s", op, class), fmt.Sprintf("case %s op %d: %s", s.cp.ID, s.opIdx-1, what), d)
+	// model and store have diverged: anything observed later in this case would only echo this
+	// divergence under other names, so the case ends here (other cases keep looking).
+	s.dead = true
 }
 
 func (s *logRun) open() error {
@@ -897,6 +900,12 @@ func RunC15(c *lib.Ctx) {
 		"GetUint64 is only compared for keys last written with SetUint64, Get only for keys last written with Set",
 		"RocksDB 7.8.3 (Debian) through /verif/native shim instead of the 6.x QED pinned",
 	}
+	c.Extra("information_counters", map[string]string{
+		"info:deleterange_min>max_returns_error":                           "DeleteRange(min>max) removed nothing (as it must) but returned RocksDB's 'end key comes before start key'",
+		"info:store_refuses_writes_after_refused_deleterange_until_reopen": "after that refusal a probe write was refused too: RocksDB holds a background error until the store is reopened",
+		"info:deleterange_max=2^64-1_removed_nothing(max+1_overflow)":      "DeleteRange(min, 2^64-1) left the entries in place: max+1 wraps to 0",
+		"info:nil_vs_empty_slice_not_preserved":                            "a nil Data/Extensions came back empty or vice versa (same value for raft)",
+	})
 	n := c.Q(200, 2000)
 	r := c.Rand("c15-plan")
 	var cases []casePlan
